@@ -742,7 +742,17 @@ class Fxp():
             raise ValueError('Not supported input type: {}'.format(type(val)))
 
         # convert to (numpy) ndarray
-        val = np.array(val)
+        if isinstance(val, (list, tuple)):
+            _arr = np.array(val)
+            if _arr.dtype.kind == 'f':
+                # NumPy promotes a list of Python ints that mixes values below and above 2**63 to float64, which
+                # loses their low bits: keep integers exact
+                _obj = np.array(val, dtype=object)
+                if all(isinstance(v, int) and not isinstance(v, bool) for v in _obj.ravel()):
+                    _arr = _obj
+            val = _arr
+        else:
+            val = np.array(val)
 
         if vdtype is None:
             vdtype = val.dtype
